@@ -197,6 +197,7 @@ func loadFindings() []Finding {
 // Finish writes replays and the evidence file, prints the verdict lines and returns
 // the exit code (0 held / only known findings, 1 new violation).
 func (r *Run) Finish() int {
+	r.drainPanics()
 	known := map[string]Finding{}
 	for _, f := range loadFindings() {
 		if f.Status == "known" && f.Property == r.ID {
@@ -326,7 +327,36 @@ type Partial struct {
 	Extra       map[string]any        `json:"extra"`
 }
 
+// Handler panics noted by the seam (a panic inside a request is recovered by the HTTP
+// layer, so it never reaches the harness unless the harness looks at the result): every
+// one becomes a violation when the run (or the worker's partial) is written, whether or
+// not the harness also judged it.
+var (
+	panicMu    sync.Mutex
+	panicNotes [][2]string
+)
+
+// NotePanic records a recovered panic of the code under test.
+func NotePanic(where string, p any, stack string) {
+	panicMu.Lock()
+	defer panicMu.Unlock()
+	if len(panicNotes) < 10000 {
+		panicNotes = append(panicNotes, [2]string{where, fmt.Sprintf("%v @ %s", p, stack)})
+	}
+}
+
+func (r *Run) drainPanics() {
+	panicMu.Lock()
+	notes := panicNotes
+	panicNotes = nil
+	panicMu.Unlock()
+	for _, n := range notes {
+		r.Violate("handler-panic/"+n[0]+"/"+Normalize(n[1]), "the code under test panicked inside a request: "+n[1], nil)
+	}
+}
+
 func (r *Run) WritePartial(path string) error {
+	r.drainPanics()
 	p := Partial{Evaluations: r.Evaluations, States: r.States, Transitions: r.Transitions, Traces: r.Traces,
 		Samples: r.samples, Violations: r.violations, VioCount: r.vioCount, Exhaustive: r.Exhaustive, Notes: r.notes, Extra: r.Extra}
 	for o := range r.outcomes {
